@@ -692,10 +692,13 @@ func parseImportsExportsMap(source logger.Source, log logger.Log, json js_ast.Ex
 
 				// If exports is an Object with both a key starting with "." and a key
 				// not starting with ".", throw an Invalid Package Configuration error.
+				// This only applies to the top-level object. In a nested object every
+				// key is a condition, and a key starting with "." is a condition that
+				// is never active.
 				curIsConditionalSugar := !strings.HasPrefix(key, ".")
 				if i == 0 {
 					isConditionalSugar = curIsConditionalSugar
-				} else if isConditionalSugar != curIsConditionalSugar {
+				} else if isConditionalSugar != curIsConditionalSugar && expr.Data == json.Data {
 					prevEntry := mapData[i-1]
 					log.AddIDWithNotes(logger.MsgID_PackageJSON_InvalidImportsOrExports, logger.Warning, &tracker, keyRange,
 						"This object cannot contain keys that both start with \".\" and don't start with \".\"",
